@@ -710,8 +710,10 @@ class Gen:
             if self.doc_casts and rng.random() < 0.08:
                 # `<expression> as void`: evaluated, result discarded
                 dt = rng.choice((INT, BOOL, STR, DOUBLE, UINT, MODE, SLIST))
-                out.append(N("discard", VOID, (self.expr(dt, 2),)))
-                self.feat("discard-as-void")
+                e = self.expr(dt, 2)
+                if not (e.k == "listlit" and not e.a[0]):   # (an untyped `[]` has nothing to be cast from: rejected)
+                    out.append(N("discard", VOID, (e,)))
+                    self.feat("discard-as-void")
                 continue
             r = rng.random()
             if r < 0.55:
